@@ -40,6 +40,8 @@ import Midgard.Proofs.WriterNumbers
 import Midgard.Proofs.WriterFilesCrd
 import Midgard.Proofs.WriterFilesClu
 import Midgard.Proofs.WriterFilesCrdRange
+import Midgard.Proofs.WriterFilesVel
+import Midgard.Proofs.WriterFilesTms
 import Midgard.Generated.WriterEffects
 import Midgard.Proofs.WriterSta
 
@@ -269,6 +271,23 @@ theorem crd_range_sufficient (solution stamp datum epoch : Str) (writeNan : Bool
     crdInRange [solution, stamp, datum, epoch] writeNan sts = true :=
   crd_range_sufficient_aux solution stamp datum epoch writeNan sts hh hn hs
 
+/-- the VEL line the round-trip theorem is proved for is the one the source has now -/
+theorem vel_layout_is : rowOf "bernese_vel" =
+    [.fld "number" ⟨some .right, 3, none, .any⟩, .lit "  ", .fld "station" ⟨none, 4, none, .any⟩, .lit " ",
+     .fld "domes" ⟨none, 9, none, .any⟩, .lit " ", .fld "x" ⟨none, 16, some 5, .fix⟩, .lit " ",
+     .fld "y" ⟨none, 14, some 5, .fix⟩, .lit " ", .fld "z" ⟨none, 14, some 5, .fix⟩, .lit " ",
+     .fld "flag" ⟨some .right, 4, none, .any⟩, .lit " ", .fld "plate" ⟨some .right, 7, none, .any⟩, .lit "\n"] := vel_row_is
+
+/-- **Bernese VEL, file level.**  The library has no parser for *.VEL; its CRD parser reads the file (same header
+height, same first seven columns; the plate column lies beyond the `delimiter` widths and is ignored).  For all inputs
+within `velInRange` (as `crdInRange`, every written station with a tectonic plate of `plate_def` or none): the VEL writer
+produces a file, and the CRD parser holds one record per written station, in order: running number, code, DOMES, the three
+velocity components rounded to 5 decimals (NaN as NaN), flag `A`. -/
+theorem vel_file_roundtrip (texts : List Str) (writeNan : Bool) (sts : List Station)
+    (h : velInRange texts writeNan sts = true) :
+    ∃ file, velFile texts writeNan sts = some file ∧ crdParse file = (xyzEntries writeNan sts).map crdRecord :=
+  vel_file_roundtrip_aux texts writeNan sts h
+
 /-- the CLU line the round-trip theorem is proved for is the one the source has now -/
 theorem clu_layout_is : rowOf "bernese_clu" =
     [.fld "station" ⟨none, 4, none, .any⟩, .lit " ", .fld "cluster" ⟨none, 16, none, .any⟩, .lit "\n"] := clu_row_is
@@ -318,10 +337,10 @@ theorem sta_records_equipment_installed (sf : Bool) (rcv ant ecc : WriterSta.His
     (r.ecc ∈ ecc ∧ r.ecc.from_ ≤ r.from_ ∧ r.from_ < r.ecc.to_) :=
   WriterSta.staRecords_sound sf rcv ant ecc r hr
 
-/-- **Every pair of consecutive equipment-change dates at whose start all three kinds of equipment are installed has its
+/-- **Every pair of consecutive record dates (equipment changes and ends of entries without successor) at whose start all three kinds of equipment are installed has its
 record**, starting and ending at these dates -/
 theorem sta_records_complete (sf : Bool) (rcv ant ecc : WriterSta.Hist) (p : Int × Int)
-    (hp : p ∈ WriterSta.pairwise (WriterSta.eventDates sf rcv ant ecc))
+    (hp : p ∈ WriterSta.pairwise (WriterSta.recordDates sf rcv ant ecc))
     (h1 : ∃ e ∈ rcv, e.from_ ≤ p.1 ∧ p.1 < e.to_) (h2 : ∃ e ∈ ant, e.from_ ≤ p.1 ∧ p.1 < e.to_)
     (h3 : ∃ e ∈ ecc, e.from_ ≤ p.1 ∧ p.1 < e.to_) :
     ∃ r ∈ WriterSta.staRecords sf rcv ant ecc, r.from_ = p.1 ∧ r.to_ = p.2 :=
@@ -332,11 +351,58 @@ theorem sta_records_nonempty_interval (sf : Bool) (rcv ant ecc : WriterSta.Hist)
     (hr : r ∈ WriterSta.staRecords sf rcv ant ecc) : r.from_ < r.to_ :=
   WriterSta.staRecords_from_lt_to sf rcv ant ecc r hr
 
+/-- **No TYPE 002 record outlasts the entries it names** (writer repaired: a record used to run to the next equipment
+change also when the entry had ended before — an interrupted history — and so claimed equipment for a time in which the site
+information has none): the record ends no later than its antenna and eccentricity entries and, without `skip_firmware`
+(which deliberately merges receiver entries that differ in firmware only), its receiver entry. -/
+theorem sta_records_within_entries (sf : Bool) (rcv ant ecc : WriterSta.Hist) (r : WriterSta.Record)
+    (hr : r ∈ WriterSta.staRecords sf rcv ant ecc) :
+    r.to_ ≤ r.ant.to_ ∧ r.to_ ≤ r.ecc.to_ ∧ (sf = false → r.to_ ≤ r.rcv.to_) :=
+  WriterSta.staRecords_within_entries sf rcv ant ecc r hr
+
 /-- the situation of seeded change C17/r3-2: no receiver between 100 and 200, the antenna changes at 150 — no record starts
-at 150, and the records before and after it name the receiver installed then -/
+at 150, the record of the first receiver ends at 100 where its entry ends (repaired writer), and the record after the
+interruption names the second receiver -/
 theorem sta_gap_witness :
     (WriterSta.staRecords false [⟨0, 100, 0⟩, ⟨200, 1000, 1⟩] [⟨0, 150, 0⟩, ⟨150, 1000, 0⟩] [⟨0, 1000, 0⟩]).map
-      (fun r => (r.from_, r.to_, r.rcv.cls)) = [(0, 150, 0), (200, 1000, 1)] := by
+      (fun r => (r.from_, r.to_, r.rcv.cls)) = [(0, 100, 0), (200, 1000, 1)] := by
+  decide +kernel
+
+/-! ### SINEX TMS, block level: writer ∘ parser on TIMESERIES/DATA (composition with C14) -/
+
+/-- **TIMESERIES/DATA round trip: the sinex_tms parser (file-level model and theorem `tms_data_roundtrip` of C14) applied to
+the lines the sinex_tms writer produces.**  For all column lists and all epochs within `tmsRowsInRange` (every column has a
+format and a value of the right kind; every value text is a whitespace token; every cell after the first is right-aligned
+and leaves a blank — `coordinate_fits` gives that for X/Y/Z up to ±9 999 999.9999, the `12.4f` ENU cells need |v| < 100 000,
+see the finding `sinex_tms:column-overflow`): the writer renders every line, and whenever `parse_timeseries_data` returns,
+the entry stored under the lower-cased name of the `j`-th column is the conversion (`tmsCol`: `astype(float)` / `astype(str)`)
+of the texts of the `j`-th value of every line, in line order — for number columns the values rounded to the printed
+decimals (`tms_float_column_rounded`). -/
+theorem tms_data_block_roundtrip (cols : List String) (epochs : List Env) (hr : tmsRowsInRange cols epochs = true)
+    (hne : epochs ≠ []) (hc : cols ≠ [])
+    (hnd : ((cols.map String.toList).map fun nm => asString (lower nm)).Nodup) :
+    ∃ rows lines, epochs.mapM (tmsCells cols) = some rows ∧ epochs.mapM (tmsLine cols) = some lines ∧
+      ∀ D, Midgard.Sinex.tmsData (cols.map String.toList) lines = some D →
+        ∀ (j : Nat) (hj : j < (cols.map String.toList).length),
+          Midgard.Sinex.dget? D (asString (lower (cols.map String.toList)[j])) =
+            Midgard.Sinex.tmsCol (cols.map String.toList)[j]
+              (rows.map fun r => (r.map fun sv => sv.2.text sv.1).getD j []) :=
+  tms_data_block_aux cols epochs hr hne hc hnd
+
+/-- a number column reads back as its values rounded to the printed decimals -/
+theorem tms_float_column_rounded (name : Str) (p : Nat) (qs : List Rat)
+    (hn : Midgard.Sinex.dtypeStr.contains name = false) :
+    Midgard.Sinex.tmsCol name (qs.map fun q => Decimal.fmtFixedCore q p) =
+      some (.col (qs.map fun q => Midgard.Sinex.Cell.flt (some (Decimal.fixedValue q p)))) :=
+  tms_float_column name p qs hn
+
+/-- every column after the first of `DATA_FIELD_TYPES` is a number cell (right-aligned by default), as the range of
+`tms_data_block_roundtrip` needs; the column names are distinct after lower-casing -/
+theorem tms_columns_right_aligned :
+    ((dataFieldTypes.drop 1).all fun p => match specOf p.1 with
+      | some sp => (sp.ty == Ty.fix || sp.ty == Ty.int) && sp.align != some Align.left
+      | none => false) = true ∧
+    ((dataFieldTypes.map fun p => asString (lower p.1.toList)).Nodup) := by
   decide +kernel
 
 /-! ### the writers do not alter what they are given -/
@@ -411,6 +477,14 @@ example : crdInRange ["NMA solution 20260930".toList, "30-SEP-26 02:09".toList, 
      ⟨"zimm".toList, some (.nan, .negz, .num (1 / 3)), none, none⟩,
      ⟨"0abi".toList, none, some [], none⟩] = true := by decide +kernel
 
+example : velInRange ["NMA solution 20260930".toList, "30-SEP-26 02:09".toList, "IGb14".toList] false
+    [⟨"adac".toList, some (.num (-93 / 5000), .num (47 / 5000), .nan), some "10337M001".toList, some "Eurasian".toList⟩,
+     ⟨"zimm".toList, some (.nan, .num 0, .num 0), none, none⟩] = true := by decide +kernel
+
+example : tmsRowsInRange ["YYYY-MM-DD", "YEAR", "X", "EAST"]
+    [[("YYYY-MM-DD", .str "2023-05-22".toList), ("YEAR", .num (202338767 / 100000)), ("X", .num (43312968156 / 10000)),
+      ("EAST", .num (-99999))]] = true := by decide +kernel
+
 example : cluInRange ["NMA solution".toList, "30-SEP-26 02:09".toList] ["zimm".toList, "0abi".toList, "ab".toList] = true := by
   decide +kernel
 
@@ -439,6 +513,8 @@ end Midgard.Props.C17
 #print axioms Midgard.Props.C17.crd_file_roundtrip
 #print axioms Midgard.Props.C17.crd_range_sufficient
 #print axioms Midgard.Props.C17.readback_is_rounding
+#print axioms Midgard.Props.C17.vel_layout_is
+#print axioms Midgard.Props.C17.vel_file_roundtrip
 #print axioms Midgard.Props.C17.clu_layout_is
 #print axioms Midgard.Props.C17.clu_file_roundtrip
 #print axioms Midgard.Props.C17.sta_lookup_sound
@@ -446,7 +522,11 @@ end Midgard.Props.C17
 #print axioms Midgard.Props.C17.sta_records_equipment_installed
 #print axioms Midgard.Props.C17.sta_records_complete
 #print axioms Midgard.Props.C17.sta_records_nonempty_interval
+#print axioms Midgard.Props.C17.sta_records_within_entries
 #print axioms Midgard.Props.C17.sta_gap_witness
+#print axioms Midgard.Props.C17.tms_data_block_roundtrip
+#print axioms Midgard.Props.C17.tms_float_column_rounded
+#print axioms Midgard.Props.C17.tms_columns_right_aligned
 #print axioms Midgard.Props.C17.writers_assign_nothing_on_inputs
 #print axioms Midgard.Props.C17.writer_effect_roots_cover
 #print axioms Midgard.Props.C17.blocks_balanced
